@@ -112,6 +112,9 @@ pub enum DataVerdict {
     /// another, already validated flow has the same 32-bit cookie: the
     /// statement (C08) and the implementation disagree here by design
     Collision,
+    /// the same, but this flow presented (now or earlier) its own valid cookie: whatever the
+    /// shared entry does to the parsers, the segment is data of a validated flow (C07)
+    CollisionValidated,
 }
 
 #[derive(Clone, Debug)]
@@ -287,6 +290,7 @@ impl<'h> Analysis<'h> {
         }
         // pass 2: connection model
         let mut validated: BTreeMap<FlowKey, (usize, usize)> = BTreeMap::new(); // flow -> (segments, bytes)
+        let mut validated_colliding: BTreeMap<FlowKey, (usize, usize)> = BTreeMap::new();
         let mut epoch = 0u32;
         let mut uncertain = false;
         let mut valid_cookies: BTreeMap<u32, FlowKey> = BTreeMap::new();
@@ -296,6 +300,7 @@ impl<'h> Analysis<'h> {
             if s.epoch != epoch {
                 epoch = s.epoch;
                 validated.clear();
+                validated_colliding.clear();
                 valid_cookies.clear();
                 uncertain = false;
                 prev_tcb = 0;
@@ -328,8 +333,18 @@ impl<'h> Analysis<'h> {
                                     }
                                 }
                                 Some(c) if valid_cookies.get(&c).map(|f| *f != fk).unwrap_or(false) => {
-                                    info.data = Some(DataVerdict::Collision);
                                     uncertain = true;
+                                    if let Some((n, b)) = validated_colliding.get(&fk).copied() {
+                                        info.data = Some(DataVerdict::CollisionValidated);
+                                        info.accepted_before = n;
+                                        info.stream_off = b;
+                                        validated_colliding.insert(fk, (n + 1, b + t.pay_len));
+                                    } else if t.ack == c.wrapping_add(1) {
+                                        info.data = Some(DataVerdict::CollisionValidated);
+                                        validated_colliding.insert(fk, (1, t.pay_len));
+                                    } else {
+                                        info.data = Some(DataVerdict::Collision);
+                                    }
                                 }
                                 Some(c) => {
                                     if t.ack == c.wrapping_add(1) {
